@@ -95,6 +95,14 @@ func C04(r *Run) {
 		if g.P(0.2) {
 			layers[0] = append(layers[0], numericMap(g, 1))
 		}
+		if g.P(0.15) {
+			// an empty document in a multi-document layer (a blank part of a TOML stream)
+			if g.P(0.5) {
+				layers[0] = append([]any{map[string]any{}}, layers[0]...)
+			} else {
+				layers[0] = append(layers[0], map[string]any{})
+			}
+		}
 		cur := any(base)
 		for j := g.N(3); j > 0; j-- {
 			up, ok := stripNullsDeep(g.Patch(cur, 2)).(map[string]any)
@@ -176,12 +184,12 @@ func C04(r *Run) {
 			go func(l *layout) {
 				defer wg.Done()
 				defer func() { <-sem }()
-				ev, ok := runEvent(r, l, false)
+				sess, ok := runSession(r, l, false)
 				if !ok {
 					return
 				}
 				mu.Lock()
-				sessions = append(sessions, Sess{Lines: [][]byte{ev}})
+				sessions = append(sessions, sess)
 				mu.Unlock()
 			}(l)
 		}
